@@ -1,5 +1,6 @@
 import Pyrtma.Proofs.Manager
 import Pyrtma.Proofs.ManagerClose
+import Pyrtma.Proofs.ManagerNotice
 /-!
 # C07 — a departed client leaves no trace
 
@@ -169,7 +170,35 @@ theorem nothing_after_close (cfg : Cfg) (rs : List Round) (u : Nat) (a b : List 
     (h : (run cfg rs).out = a ++ b) (hc : 0 < closeCnt a u) : ∀ e ∈ b, touches u e = false :=
   NS_split ((run_J cfg rs).ns u) a b h hc
 
+/-- **At most one CLIENT_CLOSED notice per departed client at every observer** — after any history, connection `o` has
+been written at most one CLIENT_CLOSED frame about connection `v` (`nTo` counts them in the whole event log), and none
+while `v` is still in the table with an open socket or has not been accepted yet.  Needs what `model_never_crashes` needs
+of the constants, plus: CLIENT_CLOSED is not the ALL sentinel, and set iteration neither invents nor repeats elements. -/
+theorem closed_notice_at_most_once (cfg : Cfg) (ok : CfgOK cfg) (hmt : cfg.mtClosed ≠ cfg.allTypes) (hord : OrdOK cfg)
+    (hfuel : cfg.fuel = 0) (rs : List Round) (o v : Nat) :
+    nTo (run cfg rs).out o v ≤ 1 ∧
+    (isOpen (run cfg rs) v = true ∨ (run cfg rs).nextUid < v → nTo (run cfg rs).out o v = 0) := by
+  have := run_T ok hmt hord hfuel rs o v
+  unfold opn at this
+  refine ⟨by omega, fun h => ?_⟩
+  rcases h with h | h
+  · rw [h] at this; simp at this; omega
+  · simp only [h, if_true] at this; omega
+
+/-- the shipped constants and both iteration orders the driver uses meet the side conditions -/
+theorem default_side_conditions : CfgOK ({} : Cfg) ∧ ({} : Cfg).mtClosed ≠ ({} : Cfg).allTypes ∧ OrdOK ({} : Cfg) ∧
+    OrdOK ({ order := List.reverse } : Cfg) :=
+  ⟨⟨by decide, by decide, by decide, fun _ _ h => h⟩, by decide, fun l h => ⟨h, fun _ hx => hx⟩,
+   fun l h => ⟨by unfold List.Nodup at h ⊢; rw [List.pairwise_reverse]; exact h.imp (fun hab => hab.symm), fun _ hx => List.mem_reverse.mp hx⟩⟩
+
 /-! ### Non-vacuity -/
+/-- connection 2 listens to CLIENT_CLOSED; connection 1 resets: exactly one notice about 1 reaches 2 -/
+def exRounds2 : List Round :=
+  [{ accept := true }, { accept := true },
+   { reads := [{ uid := 2, h := { mtype := 15, nbytes := 4 }, avail := 4, pay := [33, 0, 0, 0] }], writable := [1, 2] },
+   { reads := [{ uid := 1, hdrErr := true }], writable := [1, 2] }]
+example : nTo (run {} exRounds2).out 2 1 = 1 ∧ nTo (run {} exRounds2).out 2 2 = 0 := by decide
+
 /-- a history in which connection 1 is accepted, resets while its header is read, and connection 2 lives on -/
 def exRounds : List Round :=
   [{ accept := true }, { accept := true }, { reads := [{ uid := 1, hdrErr := true }], writable := [1, 2] },
